@@ -250,6 +250,12 @@ func (s *SencBox) ParseReadBox(perSampleIVSize byte, saiz *SaizBox) error {
 	for perSampleIVSize := byte(0); perSampleIVSize <= 16; perSampleIVSize += 8 {
 		sr.SetPos(startPos)
 		ok = s.parseAndFillSamples(sr, perSampleIVSize)
+		if ok && !s.matchesSaiz(saiz, perSampleIVSize) {
+			// The data can be parsed with this IV size, but not into the per-sample sizes given by saiz
+			s.IVs = nil
+			s.SubSamples = nil
+			ok = false
+		}
 		if ok {
 			break // We have found a working perSampleIVSize
 		}
@@ -259,6 +265,26 @@ func (s *SencBox) ParseReadBox(perSampleIVSize byte, saiz *SaizBox) error {
 	}
 	s.readButNotParsed = false
 	return nil
+}
+
+// matchesSaiz checks that the parsed samples have the auxiliary info sizes listed in saiz (if available).
+func (s *SencBox) matchesSaiz(saiz *SaizBox, perSampleIVSize byte) bool {
+	if saiz == nil || saiz.SampleCount != s.SampleCount || len(s.SubSamples) != int(s.SampleCount) {
+		return true // Nothing to compare with
+	}
+	for i := range s.SubSamples {
+		size := int(saiz.DefaultSampleInfoSize)
+		if size == 0 {
+			if i >= len(saiz.SampleInfo) {
+				return true
+			}
+			size = int(saiz.SampleInfo[i])
+		}
+		if size != int(perSampleIVSize)+2+6*len(s.SubSamples[i]) {
+			return false
+		}
+	}
+	return true
 }
 
 // parseAndFillSamples - parse and fill senc samples given perSampleIVSize
